@@ -21,7 +21,9 @@ LEVEL = "exploration"
 RULE = (
     "cases = (backend, store of 15-40 events with kinds {1, 19999, 20000, 25000, 29999, 30000} and expiration values "
     "{T-1, T, T+1, far future, '5', '0', '9'*k, millisecond timestamps, '', 'abc', '-1', ' 5', '05', '1e9', JSON int, JSON "
-    "float, two tags, bare tag}, then collector passes at T in {10^9-1, 10^9, now, 2^31-1} in increasing order). "
+    "float, two tags, bare tag}, then collector passes at T in {10^9-1, 10^9, now, 2^31-1} in increasing order, two of "
+    "three SQL passes while other work holds pooled connections); plus the real periodic collector (own timer, 30 ms) with "
+    "one failing pass (database locked / reader table full) followed by healthy ones. "
     "Non-trivial = a pass over a store holding at least one must-go and one must-stay event. Distinct = distinct "
     "(backend, T, multiset of (kind class, expiration class) in the store)."
 )
@@ -31,7 +33,7 @@ ASSUMPTIONS = [
     "LMDB backend over /verif/shim; SQL = SQLite",
 ]
 MIN_NONTRIVIAL = {"quick": 100, "thorough": 1000}
-REQUIRED_COUNTERS = ["clause.must_go", "clause.must_stay", "clause.orphans", "clause.ephemeral_live"]
+REQUIRED_COUNTERS = ["clause.must_go", "clause.must_stay", "clause.orphans", "clause.ephemeral_live", "clause.passes_on_busy_pool", "clause.passes_after_fault"]
 SHARD_TIMEOUT = {"quick": 500, "thorough": 3000}
 NOW = gen.T0
 PASSES = [10 ** 9 - 1, 10 ** 9, NOW, 2 ** 31 - 1]
@@ -145,6 +147,32 @@ async def run_store(backend, events, passes, counters):
 
             rig.gc = mod.KVGarbageCollector(rig.storage)
         clock = hist.Clock(NOW).install(mod)
+        if backend == "sql":
+            # some passes run while other work holds pooled database connections (a slow reader, an insert in
+            # flight): the collector then works on another connection of the pool than the first one
+            import sqlalchemy as sa
+
+            real_gc, npass = rig.gc, [0]
+
+            class BusyPool:
+                async def run_once(self):
+                    npass[0] += 1
+                    held = []
+                    try:
+                        for _ in range(npass[0] % 3):
+                            c = await rig.storage.db.connect()
+                            await c.execute(sa.text("select count(*) from events"))
+                            held.append(c)
+                        if held:
+                            bump("passes_on_busy_pool")
+                        await real_gc.run_once()
+                    finally:
+                        for c in held:
+                            await c.close()
+
+            rig.gc = BusyPool()
+        else:
+            bump("passes_on_busy_pool")
         watcher = rig.connect("watch")
         await watcher.cmd(["REQ", "w", {"since": 1}])
         await rig.quiesce()
@@ -218,6 +246,94 @@ async def run_store(backend, events, passes, counters):
     return viols, nontrivial
 
 
+async def run_periodic(backend, counters, seed):
+    """
+    The REAL periodic collector (start(), its own timer) with one pass that fails (database locked / reader
+    table full): the passes after the fault must still collect what is due.
+    """
+    import asyncio
+    import time as _time
+
+    r = random.Random(seed)
+    viols, nontrivial = [], []
+    clause = counters.setdefault("clause", {})
+    for fail_at in (1, 2):
+        rig = R.Rig(backend=backend, config={"analysis_delay": 0})
+        await rig.start()
+        try:
+            if backend == "sql":
+                from nostr_relay.storage import db as mod
+                import sqlalchemy as sa
+
+                gc = mod.QueryGarbageCollector(rig.storage, collect_interval=0.03)
+                fault = sa.exc.OperationalError("DELETE", {}, Exception("database is locked"))
+            else:
+                from nostr_relay.storage import kv as mod
+                import lmdb
+
+                gc = mod.KVGarbageCollector(rig.storage, collect_interval=0.03)
+                fault = lmdb.ReadersFullError("mdb_txn_begin: MDB_READERS_FULL")
+            clock = hist.Clock(NOW).install(mod)
+            key = ref.key_from_seed("c17-periodic")
+            keep = [ref.make_event(key, kind=1, created_at=NOW - 50 + i, tags=[["expiration", str(NOW + 10 ** 6)]] if i % 2 else [], content="keep %d %d" % (i, seed)) for i in range(4)]
+            due = [ref.make_event(key, kind=1, created_at=NOW - 40 + i, tags=[["expiration", str(NOW + 5 + i)], ["t", "x"]], content="due %d %d" % (i, seed)) for i in range(3)]
+            conn = rig.connect("p")
+            await qcore.load_store(rig, conn, keep + due)
+            before = dump.stored_events(dump.dump(rig))
+            passes = [0]
+            real_collect = gc.collect
+
+            async def collect(db):
+                passes[0] += 1
+                if passes[0] == fail_at:
+                    raise fault
+                return await real_collect(db)
+
+            gc.collect = collect
+            rp = {"backend": backend, "mode": "periodic", "seed": seed}
+            if fail_at == 2:
+                clock.now = NOW  # nothing due yet at the first (healthy) pass
+            else:
+                clock.now = NOW + 100
+            await gc.start()
+            t0 = _time.monotonic()
+            while passes[0] < fail_at and _time.monotonic() - t0 < 20:
+                await asyncio.sleep(0.01)
+            clock.now = NOW + 100  # everything in `due` is due now; the fault is over
+            t1 = _time.monotonic()
+            while passes[0] < fail_at + 3 and _time.monotonic() - t1 < 8 and not (gc._task is not None and gc._task.done()):
+                await asyncio.sleep(0.01)
+            await rig.quiesce()
+            after = dump.stored_events(dump.dump(rig))
+            dead = gc._task is not None and gc._task.done()
+            if dead:
+                try:
+                    gc._task.exception()
+                except BaseException:
+                    pass
+            clause["passes_after_fault"] = clause.get("passes_after_fault", 0) + max(0, passes[0] - fail_at)
+            counters["passes"] = counters.get("passes", 0) + passes[0]
+            left = [e for e in due if e["id"] in after]
+            if all(e["id"] in before for e in due):
+                nontrivial.append(h([backend, "periodic", fail_at, seed]))
+                if left and (dead or passes[0] >= fail_at + 2):
+                    viols.append({"key": "%s/survived/expired/after-failed-pass" % backend,
+                                  "msg": "[%s] pass %d of the periodic collector failed (%s); afterwards %d expired events stayed stored: %s"
+                                         % (backend, fail_at, type(fault).__name__, len(left),
+                                            "the collector task had ended, no later pass ran" if dead else "%d later passes ran" % (passes[0] - fail_at)), "replay": rp})
+                elif left:
+                    counters["periodic_inconclusive"] = counters.get("periodic_inconclusive", 0) + 1
+            for e in keep:
+                if e["id"] not in after:
+                    viols.append({"key": "%s/removed/periodic" % backend, "msg": "[%s] the periodic collector removed an event that is not due" % backend, "replay": rp})
+            gc.running = False
+            if gc._task is not None and not gc._task.done():
+                gc._task.cancel()
+        finally:
+            await rig.close()
+    return viols, nontrivial
+
+
 def value_class(e, T):
     vals = [t[1] for t in e["tags"] if t and t[0] == "expiration" and len(t) > 1]
     if not vals:
@@ -245,6 +361,9 @@ def run_shard(spec):
     counters = {}
     stores = [gen_store(r) for _ in range(spec["stores"])]
     viols, nontrivial = R.run(run_many, spec["backend"], stores, counters)
+    v2, nt2 = R.run(run_periodic, spec["backend"], counters, spec["case_seed"])
+    viols.extend(v2)
+    nontrivial.extend(nt2)
     seen, out = {}, []
     for v in viols:
         seen[v["key"]] = seen.get(v["key"], 0) + 1
@@ -259,5 +378,8 @@ def run_shard(spec):
 
 def replay(rp, spec):
     counters = {}
+    if rp.get("mode") == "periodic":
+        v, nt = R.run(run_periodic, rp["backend"], counters, rp["seed"])
+        return {"evaluations": 1, "nontrivial": nt, "counters": counters, "violations": v, "samples": [], "inconclusive": []}
     v, nt = R.run(run_store, rp["backend"], rp["events"], rp.get("passes") or PASSES, counters)
     return {"evaluations": 1, "nontrivial": nt, "counters": counters, "violations": v, "samples": [], "inconclusive": []}
